@@ -38,8 +38,43 @@ fn cfgs() -> Vec<PairCfg> {
     // the application reports a path change (MTU discovery restarts) while the initial MTU is above what the peer accepts
     add("init1400+peer1300+pathchanged", &|c| { c.client.initial_mtu = 1400; c.server.initial_mtu = 1400; c.server_max_udp = Some(1300); c.client_max_udp = Some(1300); });
     add("default+pathchanged", &|_| {});
+    // a peer (another implementation) advertising max_udp_payload_size beyond 16 bits: legal, and no limit at all
+    for (name, v) in [("peer65536", 65_536u64), ("peer66000", 66_000), ("peer2^32+1300", (1 << 32) + 1300), ("peer2^62-1", (1 << 62) - 1)] {
+        add(name, &|c| {
+            c.server_params_override = Some(max_udp_override(v));
+            c.client_params_override = Some(max_udp_override(v));
+        });
+    }
     add("min1280init1400", &|c| { c.client.initial_mtu = 1400; c.client.min_mtu = 1280; c.server.initial_mtu = 1400; c.server.min_mtu = 1280; });
     v
+}
+
+/// Rewrites transport parameter 0x03 (max_udp_payload_size) in what an endpoint sends
+fn max_udp_override(v: u64) -> crate::mtls::ParamsOverride {
+    std::sync::Arc::new(move |orig: &[u8]| {
+        let tps = crate::wire::parse_transport_params(orig).unwrap_or_default();
+        let mut o = vec![];
+        let mut seen = false;
+        let mut put = |o: &mut Vec<u8>, id: u64, val: &[u8]| {
+            crate::wire::put_var(o, id);
+            crate::wire::put_var(o, val.len() as u64);
+            o.extend_from_slice(val);
+        };
+        let mut enc = vec![];
+        crate::wire::put_var(&mut enc, v);
+        for (i, val) in &tps {
+            if *i == 0x03 {
+                seen = true;
+                put(&mut o, 0x03, &enc);
+            } else {
+                put(&mut o, *i, val);
+            }
+        }
+        if !seen {
+            put(&mut o, 0x03, &enc);
+        }
+        o
+    })
 }
 
 #[derive(Clone, Debug)]
